@@ -215,7 +215,7 @@ func c17Identifiers(c *mon.Ctx) {
 		}
 	}
 	// hand-picked boundary shapes
-	for _, s := range []string{"", "@", "@:", "@a:", "@:b", "@a:b", "!a:b", "!:b", "!a:", "!", "a", ":", ":80", "a:", "a:80", "a:65535", "a:65536", "a:99999", "a:-1", "a:+1", "a: 80",
+	for _, s := range []string{"", "@", "@:", "@a:", "@:b", "@:bc", "@:example.org", "@:example.org:8448", "@:[::1]", "@:1.2.3.4", "!:bc", "!:example.org", "@a:b", "!a:b", "!:b", "!a:", "!", "a", ":", ":80", "a:", "a:80", "a:65535", "a:65536", "a:99999", "a:-1", "a:+1", "a: 80",
 		"[::1]", "[::1]:80", "[::1]:", "[::1", "::1", "[]", "[", "[:", "[:8448", "]", "[]:80", "[[", "@a:[", "!a:[", "@a:[:80", "!a:]", "[1.2.3.4]", "[1.2.3.4]:80", "[::1%eth0]", "[g::1]", "1.2.3.4", "1.2.3.4:8448", "256.1.1.1", "a..b", "-a", "a_b", "a b", "é.example",
 		"@a:[::1]:80", "@a:b:c", "@a:b:80", "@A:b", "@a+b:c", "@a b:c", "@é:c", "!a b:c", "!é:c", "!a:b:c:80", "@" + strings.Repeat("a", 252) + ":b", "@" + strings.Repeat("a", 253) + ":b",
 		"::ffff:1.2.3.4", "::ffff:1.2.3.4:8448", "@a:::ffff:1.2.3.4", "!a:::ffff:1.2.3.4", "1::", "2001:db8::1", "2001:db8::1:8448",
